@@ -123,13 +123,25 @@ func lastField(path string) string {
 func (o *C02) Check(x *h.Exec, ev *h.Event) {
 	// ranges of stale sets refer to an older text; reader faults on other paths
 	// do not excuse a range
-	if !x.S.SetsCurrent() {
-		return
-	}
 	c := ev.Check
 	j := &rangeJudge{x: x, exempt: schemaRanges(x.Sc.World)}
 	kinds := kindsOr(c, nil)
-	want := func(k string) bool { return len(kinds) == 0 || has(kinds, k) }
+	stale := !x.S.SetsCurrent()
+	if stale {
+		x.Cov.Probe("checked_with_stale_sets")
+	}
+	want := func(k string) bool {
+		if stale {
+			// ranges taken from the collected sets describe the older text; what a
+			// request derives from the current syntax tree must be valid all the same
+			switch k {
+			case "completion", "hover", "tokens", "symbols_file", "symbols_ws", "links", "validate", "validate_file":
+			default:
+				return false
+			}
+		}
+		return len(kinds) == 0 || has(kinds, k)
+	}
 	salt := uint64(0)
 	judge := func(q h.Query) bool {
 		salt++
@@ -231,7 +243,7 @@ func sweep(x *h.Exec, ev *h.Event, want func(string) bool, judge func(h.Query) b
 		// lookups exactly where something is to be looked up: on every stored
 		// origin (go-to-definition) and on every stored declaration's definition
 		// (find-references); the sweep below only samples offsets
-		if c == nil || c.Offsets == nil {
+		if (c == nil || c.Offsets == nil) && x.S.SetsCurrent() {
 			n := 0
 			for _, org := range p.Ctx().ReferenceOrigins {
 				if n >= 80 || !want("goto_def") {
